@@ -23,8 +23,8 @@ Spec == Init /\ [][Next]_vars
 InvBalance == Feed(s) = SumF([k \in Nodes(s) |-> s.nodes[k].d], Nodes(s))
 (* the derived coefficient reproduces the chosen pressures: plugging it back into the law gives an identity *)
 InvLaw == \A k \in Nodes(s) \ {1} : Flow(s, k) > 0 =>
-    LET n == s.nodes[k]  m == Flow(s, k)  p1 == PB(s, n.par)  p2 == PB(s, k)  dh == HM(s, n.par) - HM(s, k)
-    IN REq(RAdd(RSub(RMul(p1, p1), RMul(p2, p2)), RMul(RMul(RMul(RAdd(p1, p2), RAdd(p1, p2)), <<1, 2>>), RMul(<<981, 10000000>>, R(dh)))),
+    LET n == s.nodes[k]  m == Flow(s, k)  p1 == PB(s, n.par)  p2 == PB(s, k)  dl == Level(s, n.par) - Level(s, k)
+    IN REq(RAdd(RSub(RMul(p1, p1), RMul(p2, p2)), RMul(RMul(RAdd(p1, p2), RAdd(p1, p2)), <<dl, 1000>>)),
            RAdd(RMul(<<1, 10>>, RMul(RAdd(<<n.N, 16>>, Zeta(s, k)), R(m * AbsI(m)))), <<n.N * m, 1000>>))
 Emit == (EmitOn /\ Admissible(s)) => PrintT(ToJson([vp |-> "GAS", s |-> s,
             zeta |-> [k \in Nodes(s) |-> IF k = 1 THEN <<0, 1>> ELSE Zeta(s, k)], m |-> [k \in Nodes(s) |-> Flow(s, k)]]))
